@@ -1005,13 +1005,26 @@ func (x *Exec) slice(st *State, in *ssa.Slice, set func(ssa.Value, Val)) {
 			limitf("partial slice of local array")
 		}
 		s := U.sortOf(in.Type())
-		// a sequence literal: a fresh constant with ground facts about its length and elements
-		t := st.fresh("seqlit", s)
-		st.assume(fmt.Sprintf("(= (%s.len %s) %d)", s, t, len(o.Vals)))
+		// a sequence literal: the canonical snoc term (so that specifications can name the same
+		// sequence), plus ground facts about its length and elements (consequences of the axioms,
+		// stated to spare the solver the unfolding)
+		t := s + ".empty"
 		var elems []Val
-		for i, e := range o.Vals {
-			st.assume(fmt.Sprintf("(= (%s.nth %s %d) %s)", s, t, i, x.term(st, e, true)))
+		var ets []string
+		for _, e := range o.Vals {
+			et := x.term(st, e, true)
+			ets = append(ets, et)
+			t = fmt.Sprintf("(%s.snoc %s %s)", s, t, et)
 			elems = append(elems, e)
+		}
+		if len(o.Vals) > 0 {
+			c := st.fresh("seqlit", s)
+			st.assume(fmt.Sprintf("(= %s %s)", c, t))
+			st.assume(fmt.Sprintf("(= (%s.len %s) %d)", s, c, len(o.Vals)))
+			for i, et := range ets {
+				st.assume(fmt.Sprintf("(= (%s.nth %s %d) %s)", s, c, i, et))
+			}
+			t = c
 		}
 		set(in, Val{S: s, T: t, Elems: elems})
 		return
